@@ -49,6 +49,8 @@ type Case struct {
 	// SharedOpts: one Once()/Async()/Sequential() option value is reused for
 	// every subscription of the history.
 	SharedOpts bool `json:"shared_opts,omitempty"`
+	// RevOpts: subscribe options are passed in the order Sequential, Async, Once instead of Once, Async, Sequential.
+	RevOpts bool `json:"rev_opts,omitempty"`
 }
 
 type hkey struct {
@@ -356,6 +358,7 @@ func (e *env) exec(o Op, path string) {
 		if o.Seq {
 			opts = append(opts, e.src.Sequential())
 		}
+		opts = busmodel.Arrange(opts, e.c.RevOpts)
 		if err := t.Sub(e.bus, e, o.Slot, o.Ctx, filterFn(o.Filter), opts...); err != nil {
 			e.fail("%s: subscribe returned %v", path, err)
 		}
